@@ -130,10 +130,12 @@ func main() {
 		rounds, _ = strconv.Atoi(os.Args[1])
 	}
 	S := func(f, d int) pkt { return pkt{flow: f, dir: d, syn: true, seq: 1000} }
-	D := func(f, d int) pkt { return pkt{flow: f, dir: d, seq: 1001, data: []byte{byte((f+1)<<4 | d<<3), byte((f+1)<<4 | d<<3 | 1)}} }
+	D := func(f, d int) pkt {
+		return pkt{flow: f, dir: d, seq: 1001, data: []byte{byte((f+1)<<4 | d<<3), byte((f+1)<<4 | d<<3 | 1)}}
+	}
 	F := func(f, d int, seq uint32) pkt { return pkt{flow: f, dir: d, fin: true, seq: seq} }
 	work := [][][]pkt{
-		{{S(0, 0), D(0, 0)}, {S(0, 1), D(0, 1)}},                                 // first packets of both directions
+		{{S(0, 0), D(0, 0)}, {S(0, 1), D(0, 1)}},                                  // first packets of both directions
 		{{S(0, 0), F(0, 0, 1001), S(1, 0), D(1, 0)}, {D(0, 0), D(0, 0), D(0, 0)}}, // close, recycle, stale pointer
 		{{S(0, 0), F(0, 0, 1001), S(0, 1), F(0, 1, 1001), S(1, 0)}, {D(0, 0), D(0, 1), D(0, 0)}},
 		{{S(0, 0), D(0, 0)}, {D(0, 0), F(0, 0, 1003)}, {S(1, 0), F(1, 0, 1001), S(2, 0)}},
